@@ -24,9 +24,11 @@ var c05Queries = []string{
 	`{ me { friends { friends { lastName firstName } } } topPhoto { likes owner { nick } } }`,
 	`{ pets { name ... on Cat { toys lives } ... on Dog { barks owner { nick } } } }`,
 	`{ ... on Query { ... on Query { allUsers { x1: firstName } } } allUsers { nick lastName } }`,
+	`{ allUsers { firstName photos { url likes } } }`,
+	`{ allUsers { photos { likedBy { firstName } likes } friends { photos { likes } } } }`,
 }
 
-var schedPolicies = []string{"random", "lifo", "fifo", "deep-first", "shallow-first", "calls-first", "push-first", "random", "random"}
+var schedPolicies = []string{"random", "lifo", "fifo", "deep-first", "shallow-first", "calls-first", "push-first", "starve-collector", "starve-collector", "spawn-last", "spawn-last"}
 
 func (c05) Cases(tier string) int {
 	switch tier {
@@ -39,7 +41,7 @@ func (c05) Cases(tier string) int {
 }
 
 func (c05) Rule() string {
-	return "fixed fan-out queries and generated queries over fixed and random federations, optionally with 1-2 injected failures (addressed by join id so that they do not depend on the schedule); each case is executed once unscheduled and then under 9 (quick) / 25 (thorough) controlled schedules: every service call and every executor goroutine about to publish its result parks at a gate and a controller releases one parked goroutine at a time by policy {random, LIFO, FIFO, deepest path first, shallowest first, calls first, publishers first}; the response data and the multiset of error messages must be identical in all runs; the harness is built with -race and a reported race kills the worker (attributed to the case); non-trivial = at least 3 service calls; distinct = distinct (federation, query, faults)"
+	return "fixed fan-out queries and generated queries over fixed and random federations, optionally with 1-2 injected failures (addressed by join id so that they do not depend on the schedule); each case is executed once unscheduled and then under 11 (quick) / 33 (thorough) controlled schedules: every service call and every executor goroutine about to publish its result parks at a gate (under the starve-collector policy also the collector, each time it has received a result) and a controller releases one parked goroutine at a time by policy {random, LIFO, FIFO, deepest path first, shallowest first, calls first, publishers first, starve the collector so that the result channel stays full, hold goroutines that are about to start a dependent step}; gates: service calls, the publish site, the spawn site and (when starving it) the collector; list fan-out up to 18; the response data and the multiset of error messages must be identical in all runs; the harness is built with -race and a reported race kills the worker (attributed to the case); non-trivial = at least 3 service calls; distinct = distinct (federation, query, faults)"
 }
 
 func errMultiset(err error) []string {
@@ -67,6 +69,9 @@ func (c05) Run(c *Ctx, i int) CaseResult {
 	}
 	if r.Intn(3) == 0 {
 		in.ListLen = 2 + r.Intn(6)
+	}
+	if r.Intn(4) == 0 {
+		in.ListLen = 11 + r.Intn(8) // more simultaneous results than the result channel holds
 	}
 	res := CaseResult{ID: fmt.Sprintf("gen:%d", i)}
 	ref, err := RunFed(c, in, 8*time.Second)
@@ -110,16 +115,16 @@ func (c05) Run(c *Ctx, i int) CaseResult {
 	res.Nontrivial = ncalls >= 3
 	base := Canon(ref.Out.Data)
 	baseErrs := fmt.Sprint(errMultiset(ref.Out.Err))
-	nsched := 9
+	nsched := 11
 	if c.Tier == "thorough" || c.Tier == "search" {
-		nsched = 25
+		nsched = 33
 	}
 	released := 0
 	for k := 0; k < nsched; k++ {
 		policy := schedPolicies[k%len(schedPolicies)]
 		sc := NewSched(policy, c.Seed*977+int64(i)*131+int64(k))
 		fc := &FedCase{In: in}
-		f, err := NewFed(in.Spec, ref.Store, gateway.WithLogger(SchedLogger{sc}))
+		f, err := NewFed(in.Spec, ref.Store, gateway.WithLogger(SchedLogger{S: sc, GateCollector: policy == "starve-collector"}))
 		if err != nil {
 			res.Fails = append(res.Fails, Failure{Channel: "harness", Classifier: "harness-error", What: err.Error(), Input: in})
 			return res
